@@ -35,6 +35,7 @@ def main() -> int:
     ap.add_argument("--only", default="")
     args = ap.parse_args()
     items = []
+    superseded: list[tuple[str, str, str]] = []
     for p in sorted(glob.glob(os.path.join(VERIF, "mutations", "*.json"))):
         spec = json.load(open(p))
         items.append(("mutation", p, spec.get("breaks", []), spec.get("note", "")))
@@ -42,6 +43,9 @@ def main() -> int:
         if not os.path.exists(os.path.join(d, "meta.json")):
             continue  # seedcheck still writing this one
         meta = json.load(open(os.path.join(d, "meta.json")))
+        if meta.get("superseded_by_fix"):
+            superseded.append((os.path.basename(d), meta["superseded_by_fix"], meta.get("superseded_note", "")))
+            continue  # a later fix: commit made the tree robust against this change: nothing left to detect
         checks = [c for c, ok in (meta.get("checks_run") or {}).items() if ok] or [meta.get("breaks")]
         items.append(("seeded", os.path.join(d, "patch.diff"), checks, meta.get("needs", "")))
     if args.only:
@@ -59,6 +63,9 @@ def main() -> int:
             if not x["detected"]:
                 bad += 1
             lines.append(f"| {r['kind']} | {r['id']} | {c} | {'yes' if x['detected'] else '**NO**'} | {x['clause']} | {r['note'][:160].replace('|', '/')} |")
+    if superseded:
+        lines += ["", "Seeded changes that a later `fix:` commit neutralised (the property now holds with the change applied; not run):", ""]
+        lines += [f"* `{sid}` - fix {c}: {why}" for sid, c, why in superseded]
     lines += ["", f"{sum(len(r['checks']) for r in results)} runs, {bad} not detected."]
     open(os.path.join(VERIF, "MUTATIONS.md"), "w").write("\n".join(lines) + "\n")
     print(lines[-1])
